@@ -38,7 +38,10 @@ def _targets(gran, group):
     import labrea.overload as lo
     import labrea.runtime as rt
 
-    files = {"runtime": [rt.__file__], "overload": [lo.__file__], "cache": [lc.__file__]}[group]
+    import labrea.conditional as cond
+
+    # the overload table is read by the Switch that an evaluation builds from it (labrea/conditional.py)
+    files = {"runtime": [rt.__file__], "overload": [lo.__file__, cond.__file__], "cache": [lc.__file__]}[group]
     if gran == "opcode":
         return dict(opcode_files=files)
     return dict(line_files=files)
@@ -633,7 +636,7 @@ def run_case(case):
         _, hname, gran, prefix = case
         p1, c1, f1 = run_once(hname, gran, prefix)
         p2, c2, f2 = run_once(hname, gran, prefix)
-        if (p1, c1, f1) != (p2, c2, f2):
+        if (p1, c1, _scrub(f1)) != (p2, c2, _scrub(f2)):
             raise RuntimeError("replay is not deterministic")
         res["executions"] = 2
         for f in f1:
@@ -644,7 +647,7 @@ def run_case(case):
         points, choices, fails = run_once(hname, gran, [])
         # determinism: the same schedule twice gives identical observations
         p2, c2, f2 = run_once(hname, gran, [])
-        if (points, choices, fails) != (p2, c2, f2):
+        if (points, choices, _scrub(fails)) != (p2, c2, _scrub(f2)):
             raise RuntimeError(f"{hname}/{gran}: replaying the default schedule diverged")
         res["executions"] = 2
         res["points"] = len(points)
@@ -669,7 +672,7 @@ def run_case(case):
                 seen_fail.add(key)
                 # replay determinism before trusting the failure
                 p2, c2, f2 = run_once(hname, gran, choices)
-                if f2 != fails:
+                if _scrub(f2) != _scrub(fails):
                     raise RuntimeError(f"{hname}/{gran}: failure not reproducible under the same schedule {choices}")
                 res["failures"].append(_fail(hname, gran, choices, f))
         first = False
@@ -678,6 +681,13 @@ def run_case(case):
     res["max_points"] = stats.get("max_points", 0)
     res["outcomes"] = len(outcomes)
     return res
+
+
+def _scrub(fails):
+    """observation texts with object addresses removed (exception messages quote reprs)"""
+    import re
+
+    return [re.sub(r"0x[0-9a-fA-F]+", "0x", f) for f in fails]
 
 
 def _fail(hname, gran, choices, f):
